@@ -143,6 +143,31 @@ def main():
     full_cases.sort(key=lambda fc: (len(fc.por.net.procs) * (1 + max(max(lv) for lv in fc.lens)), fc.key()))
     seen_shape = set()
     picked = []
+    # the same pipeline, configuration, input lengths and data under different input channel capacities: judged on the real
+    # runs alone (needs no model) - "whatever ... the buffering of the input channels ... emits the same values in the same order"
+    bycap = {}
+    for c in cases:
+        for lv, real in (c.real or {}).items():
+            if real and not (real.get("deadlock") or real.get("crash")) and real.get("outs") is not None:
+                bycap.setdefault((c.pipe, tuple(c.cfg), tuple(lv)), {})[c.cap] = real
+    ncapcmp = 0
+    for (pipe_, cfg_, lv_), d in sorted(bycap.items()):
+        if 0 not in d:
+            continue
+        ref = [(o["n"], o.get("bits")) for o in d[0]["outs"]]
+        for cap_, r_ in sorted(d.items()):
+            if cap_ == 0:
+                continue
+            ncapcmp += 1
+            got = [(o["n"], o.get("bits")) for o in r_["outs"]]
+            same = len(got) == len(ref) and all(g[0] == w[0] and (g[1] is None or w[1] is None or g[1] == w[1]) for g, w in zip(got, ref))
+            if not same:
+                V.violation({"pipe": pipe_, "symptom": "capacity-dependent"},
+                            "%s%s lens=%s: with input channels of capacity %d the outputs have %s values, with unbuffered inputs %s "
+                            "(same data)%s" % (pipe_, list(cfg_), list(lv_), cap_, [g[0] for g in got], [w[0] for w in ref],
+                                               "" if [g[0] for g in got] != [w[0] for w in ref] else ": the values differ"),
+                            {"pipe": pipe_, "cfg": list(cfg_), "lens": list(lv_), "cap": cap_})
+    coverage_capcmp = ncapcmp
     for fc in full_cases:
         shape = (fc.pipe, tuple(fc.cfg))
         if tier == "quick" and shape in seen_shape:
@@ -359,6 +384,7 @@ def main():
                 "exhaustive": False, "notes": cov.notes[:40], "machinery": machinery[:40], "known_findings_hit": V.hit}
     # the commutation lemma behind the reduction, proved with the TLA+ proof system (spec/Commute.tla)
     coverage["tlaps_commutation_lemma_obligations_proved"] = vlib.run_tlapm("Commute.tla")
+    coverage["real_runs_compared_across_input_capacities"] = coverage_capcmp
     vlib.write_evidence(PID, "model_checking", coverage, time.time() - t0, len(V.new),
                         assumptions=["stage programs of Pipeline.tla follow helper/*.go (bound by C16 probes)",
                                      "networks too large for all interleavings are explored with the ample-set reduction, "
